@@ -86,10 +86,8 @@ def is_ascii(s):
 
 
 def has_space(s):
-    for c in s:
-        if c.isspace():
-            return True
-    return False
+    # (str.split() splits exactly at str.isspace() characters)
+    return s != "" and s.split() != [s]
 
 
 # --------------------------------------------------------------------------
@@ -115,12 +113,7 @@ def plain_int(s):
 
 
 def _strip_space(s):
-    i, j = 0, len(s)
-    while i < j and s[i].isspace():
-        i += 1
-    while j > i and s[j - 1].isspace():
-        j -= 1
-    return s[i:j]
+    return s.strip()           # strips exactly the str.isspace() characters
 
 
 def _ext_digits(s, i):
@@ -543,16 +536,9 @@ def _port(p):
 def ref_inet(s, default):
     if s == "" or has_space(s):
         return _UNS
-    ncolon = 0
-    last = -1
-    for i, c in enumerate(s):
-        if c == ":":
-            ncolon += 1
-            last = i
-    nbr = 0
-    for c in s:
-        if c in "[]":
-            nbr += 1
+    ncolon = s.count(":")
+    last = s.rfind(":")
+    nbr = s.count("[") + s.count("]")
     if ncolon == 0:
         if nbr:
             return _UNS
